@@ -42,6 +42,7 @@ def run(ck):
       ck.violation(c.get('key', 'corpus:' + c['_file']), 'corpus %s: %s %s, got %s expected %s' % (
           c['_file'], r['kind'], r.get('message', '')[:150], got, exp), {'program': c['program'], 'pred': c['pred']})
   cqcheck.run(ck, ck.budget(200, 4000))
+  cqcheck.run_x(ck, ck.budget(200, 4000))
   n = ck.budget(150, 2500)
   made = semcheck.make_programs(ck, n, MASK)
   made += semcheck.make_programs(ck, ck.budget(48, 720), None, {'templates': ['t_multivalued_calls', 't_nested_disjunction', 't_no_table_rule', 't_record_if', 't_unary_minus', 't_mixed_head']}, builder=templates.build)
